@@ -6,4 +6,18 @@ NOTES = ("Static analysis only: every check re-extracts MIR facts from /repo's c
          "for what each check does and does not decide.")
 _NB = "rule family not built yet (DESIGN.md §8); not claimed through a weaker check"
 CLAIMED = {}
-NOT_APPLICABLE = {("C%02d" % i): _NB for i in range(1, 21)}
+_NOTE = ("Trusted base: rustc nightly's MIR construction and callee resolution; the reviewed tables in ssrules/props/*.py; "
+         "dependencies (saphyr-parser, serde) behave as documented. A pass means the listed structural obligations hold on "
+         "every path of the current tree in the analysed feature configurations, not that the behaviour holds for every input.")
+CLAIMED["C07"] = dict(
+    level=("Static decision, over every CFG path of the resolved MIR in 2 (quick) / 7 (thorough) feature configurations, of the "
+           "necessary structural clauses of C07: strict counter/limit/breach pairing with write->compare coverage (9 limits + ratio "
+           "heuristic), per-document reset completeness, observe-before-use of every pulled parser event, kind-preserving budget "
+           "observation of replayed events, option threading and finish() on every success path of all entry points, callbacks "
+           "before the delayed breach. Not decided: equality of the report with an independent count (runtime quantity)."),
+    note=_NOTE,
+    technique="static analysis: rustc_private MIR fact extraction + dominance / must-pass-through / counter-limit pairing / reset-completeness rules")
+
+NOT_APPLICABLE = {("C%02d" % i): _NB for i in range(1, 21) if ("C%02d" % i) not in CLAIMED}
+
+NOT_APPLICABLE = {("C%02d" % i): _NB for i in range(1, 21) if ("C%02d" % i) not in CLAIMED}
